@@ -168,6 +168,9 @@ func StrToStr(x *string) *string {
 	if *x == "" {
 		return nil
 	}
+	if len(*x) == 2 {
+		return x // the very pointer that was passed in: it must not be reused for the next row
+	}
 	s := *x + "!"
 	return &s
 }
@@ -190,6 +193,9 @@ func Str2(x, y *string) *string {
 	called()
 	if x == nil && y == nil {
 		return nil
+	}
+	if x != nil && y != nil && *x == *y {
+		return y // the very pointer that was passed in
 	}
 	s := ""
 	if x != nil {
